@@ -1025,6 +1025,18 @@ class PackageGen:
 NAMESPACES = ["Sketch", "Basic", "Shared", "Imaging", "Core", "Units"]
 
 
+TARGET_FLAGS = {"cpp": ["generateHDF5", "generateNDJson", "generateCMakeLists"], "python": ["generateNDJson"], "json": [], "matlab": []}
+
+
+def randomize_target_options(pkg: Package, rng: Rng, p: float = 0.5):
+    """Documented boolean options of the enabled targets, each spelled out with a seeded value with probability p
+    (absent = the default, which is true for all of them)."""
+    for t in sorted(pkg.targets):
+        for flag in TARGET_FLAGS.get(t, []):
+            if rng.chance(p):
+                pkg.targets[t] = dict(pkg.targets[t], **{flag: rng.chance(0.5)})
+
+
 def gen_package(seed: int, cfg: Optional[GenConfig] = None, targets=("cpp", "python", "json", "matlab")) -> Package:
     """A valid package (possibly with imported packages) decided entirely by seed."""
     rng = derive(seed, "package")
